@@ -31,9 +31,11 @@ def gen(rng, tier):
         names = " ".join("x%d" % i for i in range(nd))
         fk = rng.choice([0.5, 1.0, 3.0, 10.0])
         # schedule
-        mode = rng.choice(["fixed", "centers", "centers_staged", "k", "k_staged", "k_sched", "decouple", "decouple_staged"])
+        # (kind, mode) pairs are enumerated, not drawn, so that every schedule type is exercised in every run
+        modes = ["fixed", "centers", "centers_staged", "k", "k_staged", "k_sched", "decouple", "decouple_staged"]
+        mode = modes[(k // 6 + k) % 8]
         if kind == "walls" and mode.startswith("centers"):
-            mode = rng.choice(["fixed", "k", "k_staged", "decouple"])
+            mode = ["k_staged", "decouple_staged", "k", "decouple"][(k // 6) % 4]
         nsteps = rng.randint(2, 6)
         nstages = rng.randint(1, 4)
         equil = rng.choice([0, 0, 1, nsteps - 1]) if nsteps > 1 else 0
